@@ -30,6 +30,8 @@ def configs(tier, seed):
     cfgs.append({"aw": 6, "dw": 16, "align": 0, "subs": [{"aw": 3, "name": "hi", "addr": 0x20}, {"aw": 2, "name": "lo", "addr": 0x4},
                                                          {"aw": 1, "name": None, "addr": 0x3e}]})
     cfgs.append({"aw": 1, "dw": 8, "align": 0, "subs": [{"aw": 1, "name": None, "addr": None}]})
+    cfgs.append({"aw": 6, "dw": 8, "align": 0, "refused_before": [0, 1, 2],
+                 "subs": [{"aw": 3, "name": "a", "addr": None}, {"aw": 2, "name": None, "addr": None}]})
     for c in cfgs:
         c["directed"] = True          # hand-written window sets are valid by construction: a refusal is a violation (must_accept)
     n = 60 if tier == "quick" else 1200
@@ -49,7 +51,12 @@ def configs(tier, seed):
                 cur = -(-cur // (1 << al)) * (1 << al) + (1 << max(sc["aw"], align))
             aw = max(aw, (cur - 1).bit_length())
         cfgs.append({"aw": aw, "dw": rng.choice([8, 16, 32]), "align": align, "subs": subs})
+        if rng.random() < 0.3:
+            cfgs[-1]["refused_before"] = sorted(set(rng.sample(range(len(subs) + 1), rng.randint(1, 2))))
     return cfgs
+
+
+REFUSED = []      # buses whose add() was refused in the last build(): their signals stay free environment inputs of the netlist
 
 
 def build(cfg, upto=None):
@@ -58,6 +65,7 @@ def build(cfg, upto=None):
     from amaranth_soc import csr
     from amaranth_soc.memory import MemoryMap
     subs = []
+    del REFUSED[:]
 
     def add(dec, i):
         sc = cfg["subs"][i]
@@ -67,10 +75,25 @@ def build(cfg, upto=None):
             dec.align_to(sc["align_to"])
         dec.add(sb, name=sc["name"], addr=sc["addr"])
         subs.append(sb)
+    def refused_add(dec, k):
+        """an add() the decoder must refuse (window larger than the decoder's space / other data width): afterwards the
+        decoder must behave exactly as if the call had never been made (a refused call leaves no trace)"""
+        bad_aw, bad_dw = (cfg["aw"] + 1, cfg["dw"]) if k % 2 == 0 else (1, cfg["dw"] * 2)
+        sb = csr.Interface(addr_width=bad_aw, data_width=bad_dw, path=(f"refused{k}",))
+        sb.memory_map = MemoryMap(addr_width=bad_aw, data_width=bad_dw)
+        REFUSED.append(sb)
+        try:
+            dec.add(sb, name=f"refused{k}")
+        except (ValueError, TypeError):
+            pass
     try:
         dec = csr.Decoder(addr_width=cfg["aw"], data_width=cfg["dw"], alignment=cfg["align"])
         for i in range(len(cfg["subs"]) if upto is None else upto):
+            if i in cfg.get("refused_before", ()):
+                refused_add(dec, i)
             add(dec, i)
+        if len(cfg["subs"]) in cfg.get("refused_before", ()) and upto is None:
+            refused_add(dec, len(cfg["subs"]))
     except (ValueError, TypeError) as e:
         raise Refused(str(e))
     if upto is not None:
@@ -81,7 +104,7 @@ def build(cfg, upto=None):
 def check_config(ctx, cfg):
     dec, subs = build(cfg)
     probes = []
-    for sb in subs:
+    for sb in subs + REFUSED:          # a refused bus is somebody else's: whatever it carries must not matter to this decoder
         probes += sigs_of(sb)
     tie = [dec.bus.r_data]
     for sb in subs:
